@@ -22,7 +22,7 @@ import (
 )
 
 type hnswCmd struct {
-	Op      string   `json:"op"` // add | remove | removehood | flush | search | graph | reach
+	Op      string   `json:"op"` // add | remove | removehood | removeall | flush | search | graph | reach
 	ID      uint32   `json:"id,omitempty"`
 	Vec     []uint32 `json:"vec,omitempty"`
 	Level   int      `json:"level"`            // add: the level handed to randomLevel's hook (-1: the implementation draws)
@@ -223,7 +223,14 @@ func genHNSW(r *core.Rand, tier string) *hnswCase {
 		return l
 	}
 
+	// id 0 is a legal id (the index stores the first vector whose own id is 0 under key 0, and
+	// 0 is also its "no entry point" sentinel): a good share of the cases start their ids at 0,
+	// so that the first inserted vertex — the entry point — is vertex 0
 	next := uint32(1)
+	zeroFirst := r.Chance(0.4)
+	if zeroFirst {
+		next = 0
+	}
 	var ids []uint32
 	resident := 0
 	pendingRemoved := 0
@@ -380,6 +387,23 @@ func genHNSW(r *core.Rand, tier string) *hnswCase {
 		if r.Chance(0.3) {
 			hood() // a second ring: the tombstoned entry point stays, its live neighbourhood is gone
 		}
+	}
+	// adversarial pattern: EVERY resident vector is removed (the entry point first), no Flush,
+	// then new vectors are added and searched before any Flush (the Add has to purge the
+	// tombstoned entry point, whatever its id)
+	if !c.NoEntry && !big && r.Chance(map[bool]float64{true: 0.45, false: 0.2}[zeroFirst]) {
+		c.Cmds = append(c.Cmds, hnswCmd{Op: "removeall"}, search(), hnswCmd{Op: "reach"})
+		for j := r.Range(1, 3); j > 0; j-- {
+			v := g.vec()
+			c.Cmds = append(c.Cmds, hnswCmd{Op: "add", ID: next, Vec: core.Bits(v), Level: drawLevel()})
+			g.pool = append(g.pool, v)
+			ids = append(ids, next)
+			next++
+			es := search()
+			es.Filter, es.Thr, es.ThrMode = nil, 0, 0
+			c.Cmds = append(c.Cmds, es)
+		}
+		c.Cmds = append(c.Cmds, search(), hnswCmd{Op: "reach"})
 	}
 	// tail: removals of adversarial targets with searches, a flush, final checks
 	if r.Chance(0.5) {
@@ -621,7 +645,10 @@ func execHNSW(c *hnswCase) []string {
 			arg := append([]float32(nil), raw...)
 			id := cmd.ID
 			if cmd.Target == "readd" && len(sn.tomb) > 0 {
-				id = sn.tomb[cmd.R%len(sn.tomb)]
+				// (never id 0: a second vector whose own id is 0 is stored under another key)
+				if t := sn.tomb[cmd.R%len(sn.tomb)]; t != 0 {
+					id = t
+				}
 			}
 			nextLevel = cmd.Level
 			err := idx.Add(*comet.NewVectorNodeWithID(id, arg))
@@ -642,6 +669,18 @@ func execHNSW(c *hnswCase) []string {
 			err := idx.Remove(*comet.NewVectorNodeWithID(id, nil))
 			lines = append(lines, fmt.Sprintf("op remove %d => %s%s", id, vecErr(err), sn.tail(idx)))
 			rex.run()
+		case "removeall":
+			var live []uint32
+			entry, _, _, _ := idx.VerifHNSWMeta()
+			idx.VerifHNSWVisit(func(key, id uint32, level int, deleted bool, edges [][]uint32) {
+				if !deleted && key != entry {
+					live = append(live, key)
+				}
+			})
+			for _, id := range append([]uint32{entry}, live...) {
+				err := idx.Remove(*comet.NewVectorNodeWithID(id, nil))
+				lines = append(lines, fmt.Sprintf("op remove %d => %s%s", id, vecErr(err), sn.tail(idx)))
+			}
 		case "removehood":
 			for _, id := range hnswHood(idx, cmd.Depth) {
 				err := idx.Remove(*comet.NewVectorNodeWithID(id, nil))
@@ -727,7 +766,7 @@ func nonTrivialHNSW(lines, replies []string) bool {
 func init() {
 	register(&core.Typed[hnswCase]{
 		StreamName: "hnsw", Prop: "C12",
-		RuleText: "Add/Remove/Flush histories on a real HNSWIndex (M 2..32, efConstruction/efSearch from M to 4n (capped at 512 in the cases with more than 600 vertices), dims 1..32, 3 metrics; Gaussian, clustered, duplicate-heavy and line-like low-dimensional data; distinct ids; removal targets resolved against the implementation: current entry point, highest level, highest layer-0 in-degree, random, absent; and the pattern 'entry point plus all its layer-0 neighbours (small M: plus theirs), no Flush, then searches from the entry point's own position'); after every op the exported graph must equal the model's; a case is non-trivial when at least 3 additions with >= 3 resident vertices matched the model's graph exactly AND some search returned a non-empty answer that the model reproduced (and, in the small regime, the flat specification confirmed as exact) AND no known finding was hit; distinct = distinct request streams",
+		RuleText: "Add/Remove/Flush histories on a real HNSWIndex (M 2..32, efConstruction/efSearch from M to 4n (capped at 512 in the cases with more than 600 vertices), dims 1..32, 3 metrics; Gaussian, clustered, duplicate-heavy and line-like low-dimensional data; distinct ids (0 included); removal targets resolved against the implementation: current entry point, highest level, highest layer-0 in-degree, random, absent; the pattern 'entry point plus all its layer-0 neighbours (small M: plus theirs), no Flush, then searches from the entry point's own position' and the pattern 'every resident vector removed, no Flush, then new vectors added and searched'; 40% of the cases start their ids at 0, so that vertex 0 is the first entry point); after every op the exported graph must equal the model's; a case is non-trivial when at least 3 additions with >= 3 resident vertices matched the model's graph exactly AND some search returned a non-empty answer that the model reproduced (and, in the small regime, the flat specification confirmed as exact) AND no known finding was hit; distinct = distinct request streams",
 		NCases: func(tier string) int {
 			if tier == "thorough" {
 				return 2500
